@@ -59,8 +59,8 @@ CHECKS = {
    design="6/C10"),
  "C11": dict(
    technique="stateful property-based testing (proptest global schedules over suppliers and observers) on the swarm runtime; oracle from the manager's handled completion order (A) and the verified disk state (D); coverage-guided libFuzzer campaign over the same histories (target fz_hist: hand-written byte decoder, the check's own oracle inside the target; thorough)",
-   text="Suppliers complete pieces (some corrupt) while observers handshake, choke and unchoke at generated points, also racing with completions inside one barrier: bitfields satisfy A(at Init) <= bits <= D with zero spare bits, every Have(i) has i verified on disk, Haves for completions after the observer's Init arrive in completion order and none is missing whenever the observer is not choking the client.",
-   note="< 32 completions between barriers (broadcast capacity). D sampled at barriers (monotone).",
+   text="Suppliers complete pieces (some corrupt) while observers handshake, choke and unchoke at generated points, also racing with completions inside one barrier: bitfields satisfy A(at Init) <= bits <= D with zero spare bits, every Have(i) has i verified on disk, Haves for completions after the observer's Init arrive in completion order and none is missing whenever the observer is not choking the client. Observer tasks may be left unscheduled while 2-64 pieces complete: a loss after a lag of more than 31 broadcasts is the known finding (KNOWN-FINDING, exit 0), a loss after a smaller lag a violation.",
+   note="Known finding: a task lagging more than 32 broadcasts loses announcements (tokio broadcast channel of 32, Lagged ignored). D sampled at barriers (monotone).",
    design="6/C11"),
  "C12": dict(
    technique="stateful property-based testing (proptest histories of wire events over up to 5 scripted peers, scenario templates for deep states) through the real connection tasks and manager; invariants after every barrier; committed corpus replay; coverage-guided libFuzzer campaign over the same histories (target fz_hist: hand-written byte decoder, the check's own oracle inside the target; thorough)",
